@@ -96,6 +96,37 @@ def b_len(I, args, kw, node):
 
 
 def _minmax(I, args, kw, node, is_min):
+    if len(args) == 1 and isinstance(args[0], SymGen):
+        # min/max of `elt for x in family[lo:hi]` with symbolic bounds: the element is evaluated ONCE at an arbitrary
+        # index k in range (obligations raised while evaluating it hold for every k because k is fresh); the result
+        # bounds every element and is one of them; an empty range raises ValueError as in CPython
+        g = args[0]
+        lo, hi = to_z3(g.lo), to_z3(g.hi)
+        if not I.decide(hi > lo, "min/max-non-empty"):
+            I.raise_builtin("ValueError", node)
+        from .interp import Frame
+        k = z3.Int(I.fresh_name("gk"))
+        npc = len(I.pc)
+        I.pc.append(z3.And(lo <= k, k < hi))
+        fr = Frame(g.frame.module, {}, parent=g.frame, spec=g.frame.spec)
+        I.frames.append(fr)
+        try:
+            I.assign(g.target, g.getter(k))
+            el = to_z3(I.ev(g.elt))
+        finally:
+            I.frames.pop()
+        # conditions decided while evaluating the element (they may mention k) must hold for EVERY index in range - an
+        # obligation, so that the element expression obtained on this path is the element at every index
+        extras = [to_z3(c) for c in I.pc[npc + 1:]]
+        guard = I.pc[npc]
+        del I.pc[npc:]
+        if extras:
+            I.oblige("call-pre", "generator-element-uniform", z3.ForAll([k], z3.Implies(guard, z3.And(*extras))))
+        m = z3.Const(I.fresh_name("ext"), el.sort())
+        j = z3.Int(I.fresh_name("gj"))
+        I.assume(z3.ForAll([k], z3.Implies(guard, (m <= el) if is_min else (m >= el))))
+        I.assume(z3.Exists([j], z3.substitute(z3.And(guard, el == m), (k, j))))
+        return m
     if len(args) == 1 and isinstance(args[0], SymList):
         v = args[0]
         if not I.decide(v.n > 0, "min/max-non-empty"):
